@@ -75,7 +75,8 @@ def configs(tier):
     for cls in wiring.CLASSES:
         out.append(dict(group="refit", cls=cls))
     # "regardless of what was computed earlier in the same process": locus construction after another locus == in a fresh process
-    out.append(dict(group="history", target="locus-prior"))
+    for lo in range(0, 16, 4):
+        out.append(dict(group="history", target="locus-prior", k1lo=lo))
     # argv -> program object: --mcmc-seed (0 is a legal seed), --ploidy, and every numeric option reach the attribute of that meaning
     for prog in wiring.CLI_PROGS:
         out.append(dict(group="cli-attrs", prog=prog))
@@ -643,7 +644,7 @@ def _run_history(c, col):
         return E.load(name)
 
     def body(ctx):
-        k1 = int(E.SymInt(E.fresh_int(ctx, "k1", 0, 15)))
+        k1 = int(E.SymInt(E.fresh_int(ctx, "k1", c.get("k1lo", 0), c.get("k1lo", 0) + 3 if "k1lo" in c else 15)))
         k2 = int(E.SymInt(E.fresh_int(ctx, "k2", 0, 15)))
         E.reset_modules()
         return k1, k2, _hist_drive(E.load, fresh, k1, k2)
